@@ -415,6 +415,44 @@ func c15Enum(depth int, allowUnit bool, f func(*c15Ty)) {
 	}
 }
 
+// an external type named INSIDE its own package_info block (unqualified there) is the package's type,
+// whether or not the file also has a type of its own with that name, before or after the block
+func c15OwnBlock() {
+	local := "type Buffer = {Own: int}\n\ntype Dict<K, V> = {OwnK: K; OwnV: V}\n\n"
+	blocks := "package_info buf =\n  type Buffer\n  let New: ()->Buffer\n  let Many: int->[]Buffer\n\n" +
+		"package_info dict =\n  type Dict<K, V>\n  let New<K, V>: ()->Dict<K, V>\n  let Pair<K, V>: K->V->Dict<K, V>*int\n\n"
+	uses := "let k1 () =\n  buf.New ()\n\nlet k2 () =\n  buf.Many 3\n\nlet k3 () =\n  dict.New<string, int> ()\n\nlet k4 () =\n  dict.Pair \"a\" 1\n"
+	want := map[string]string{"k1": "buf.Buffer", "k2": "[]buf.Buffer", "k3": "dict.Dict[string, int]", "k4": "frt.Tuple2[dict.Dict[string, int], int]"}
+	for v, prog := range []string{"package main\n\n" + blocks + uses, "package main\n\n" + local + blocks + uses, "package main\n\n" + blocks + local + uses} {
+		goSrc, err := vTranspile(prog)
+		vstat("pos.own-block")
+		if err != "" {
+			vViolation(map[string]any{"kind": "valid program rejected (external types named in their own package_info block)", "program": prog, "error": err, "variant": v})
+			continue
+		}
+		fset := token.NewFileSet()
+		f, perr := parser.ParseFile(fset, "gen.go", goSrc, 0)
+		if perr != nil {
+			vViolation(map[string]any{"kind": "emitted Go does not parse", "program": prog, "error": perr.Error()})
+			continue
+		}
+		for _, d := range f.Decls {
+			fd, ok := d.(*ast.FuncDecl)
+			if !ok || want[fd.Name.Name] == "" {
+				continue
+			}
+			got := ""
+			if fd.Type.Results != nil && len(fd.Type.Results.List) == 1 {
+				got = c15Cut(goSrc, fset, fd.Type.Results.List[0].Type)
+			}
+			if got != want[fd.Name.Name] {
+				vViolation(map[string]any{"kind": "Go type in position differs from the documented mapping", "position": "signature inside the type's own package_info block",
+					"function": fd.Name.Name, "emitted": got, "documented": want[fd.Name.Name], "program": prog, "variant": v})
+			}
+		}
+	}
+}
+
 func vC15(seed int64, count int, extra []string) {
 	depth := 1
 	if len(extra) > 0 {
@@ -439,6 +477,7 @@ func vC15(seed int64, count int, extra []string) {
 	for i := 0; i < npos; i++ {
 		c15CheckPositions(c15Rand(r, 3, false), r)
 	}
+	c15OwnBlock()
 	// malformed: drop or duplicate one token of a valid expression; model and parser must agree
 	for i := 0; i < count/4; i++ {
 		var o c15Out
